@@ -137,6 +137,11 @@ func vpDetOnce(role StateType, typ pb.MessageType, shapes []int, policy int) vpD
 	o.shapes = shapes
 	if role == StateLeader {
 		o.reads = 1
+		o.ls, o.lu = 0, 1
+		o.plainData = true
+		if typ == pb.MsgAppResp || typ == pb.MsgHeartbeatResp {
+			vpFromOnly = 2
+		}
 	}
 	mo := vpMsgOpts{typ: typ}
 	switch typ {
@@ -186,9 +191,9 @@ func vpH_det_F_MsgHup()           { vpDetCell(StateFollower, pb.MsgHup, vpJointS
 func vpH_det_F_MsgSnap()          { vpDetCell(StateFollower, pb.MsgSnap, []int{0}) }
 func vpH_det_C_MsgVoteResp()      { vpDetCell(StateCandidate, pb.MsgVoteResp, vpJointShapes) }
 func vpH_det_P_MsgPreVoteResp()   { vpDetCell(StatePreCandidate, pb.MsgPreVoteResp, vpJointShapes) }
-func vpH_det_L_MsgAppResp()       { vpDetCell(StateLeader, pb.MsgAppResp, []int{0, 1}) }
-func vpH_det_L_MsgHeartbeatResp() { vpDetCell(StateLeader, pb.MsgHeartbeatResp, []int{0, 1}) }
-func vpH_det_L_MsgProp()          { vpDetCell(StateLeader, pb.MsgProp, vpJointShapes) }
+func vpH_det_L_MsgAppResp()       { vpDetCell(StateLeader, pb.MsgAppResp, []int{1}) }
+func vpH_det_L_MsgHeartbeatResp() { vpDetCell(StateLeader, pb.MsgHeartbeatResp, []int{1}) }
+func vpH_det_L_MsgProp()          { vpDetCell(StateLeader, pb.MsgProp, []int{1}) }
 func vpH_det_L_MsgBeat()          { vpDetCell(StateLeader, pb.MsgBeat, vpJointShapes) }
 func vpH_det_L_MsgCheckQuorum()   { vpDetCell(StateLeader, pb.MsgCheckQuorum, vpJointShapes) }
-func vpH_det_L_MsgReadIndex()     { vpDetCell(StateLeader, pb.MsgReadIndex, vpJointShapes) }
+func vpH_det_L_MsgReadIndex()     { vpDetCell(StateLeader, pb.MsgReadIndex, []int{0, 1}) }
